@@ -41,6 +41,30 @@ def _pgid_rss_gb(pgid):
     return tot / (1 << 30)
 
 
+_LIVE_PGIDS = set()
+
+
+def _kill_children(*_a):
+    for pg in list(_LIVE_PGIDS):
+        try:
+            os.killpg(pg, signal.SIGKILL)
+        except Exception:
+            pass
+    if _a:      # called as a signal handler
+        os._exit(143)
+
+
+def install_cleanup():
+    """kill every child process group when the driver itself is terminated (e.g. by an outer `timeout`)"""
+    import atexit
+    atexit.register(_kill_children)
+    for sig in (signal.SIGTERM, signal.SIGINT, signal.SIGHUP):
+        try:
+            signal.signal(sig, _kill_children)
+        except Exception:
+            pass
+
+
 def run(cmd, cwd=None, timeout=None, env=None, mem_gb=None, stdin=None):
     """Run cmd (list) in its own process group with a wall timeout and an RSS watchdog (sum over the group);
     returns (rc, output, secs, timed_out). A memory kill is reported as timed_out with 'MEMORY-LIMIT' in the output."""
@@ -50,6 +74,7 @@ def run(cmd, cwd=None, timeout=None, env=None, mem_gb=None, stdin=None):
                          stdin=subprocess.DEVNULL if stdin is None else stdin, preexec_fn=os.setsid, text=True,
                          errors="replace")
     state = {"killed": None}
+    _LIVE_PGIDS.add(p.pid)
 
     def watchdog():
         while p.poll() is None:
@@ -67,6 +92,7 @@ def run(cmd, cwd=None, timeout=None, env=None, mem_gb=None, stdin=None):
     th = threading.Thread(target=watchdog, daemon=True)
     th.start()
     out, _ = p.communicate()
+    _LIVE_PGIDS.discard(p.pid)
     th.join(timeout=5)
     if state["killed"] == "memory":
         out += f"\nMEMORY-LIMIT: process group exceeded {mem_gb} GB RSS and was killed\n"
